@@ -1104,6 +1104,27 @@ class Explorer:
         return seen
 
 
+def feasible_reach_without(fn, goals, through, start=0):
+    """is a block of `goals` reachable on a FEASIBLE path from `start` that does not pass a block of `through` first?  (dominance with branch facts:
+    the error exit of an inlined helper followed by the caller's `?` does not count as a way around the helper's success path)"""
+    ex = Explorer(fn)
+    goals, through = set(goals), set(through)
+    hit = []
+
+    def step(b, st, env):
+        if b in through:
+            return None
+        if b in goals:
+            hit.append(b)
+            return None
+        return st
+    try:
+        ex.walk(start, 0, step)
+    except RuntimeError:
+        return True
+    return bool(hit)
+
+
 def chain_calls(fn, operand, limit=64):
     """names of the (transparent) calls a value passes through on its backward def chain"""
     out = set()
